@@ -31,8 +31,9 @@ OPT_KEYS = ("ow", "chk", "cmp", "del")
 STEM = "_spikeglx_ephysData_g0_t0.imec0"
 
 
-class Injected(BaseException):
-    """an interruption (BaseException: nothing in the library catches it)"""
+class Injected(Exception):
+    """an interruption (a plain Exception: it may be raised inside mtscomp's thread pool, whose workers only hand
+    Exception subclasses back to the caller; nothing in the library catches it)"""
 
 
 class World:
@@ -205,10 +206,29 @@ def instrumented(world, conv, steps, fail_at):
             point("check_closing")
         return o_close(self)
 
+    import mtscomp
+    o_chunk, o_rename = mtscomp.Writer._compress_chunk, pathlib.Path.rename
+
     def w_comp(self, *a, **k):
-        point("compress_orig" if self is conv.sr else "comp")
+        # compress_file = temporary file, chunks, header, check, rename (spec/sys/System.tla refines the converter's atomic
+        # CompressFile step into these): entry and first chunk are stuttering points, the rename is the step itself
+        state["comp_label"] = "compress_orig" if self is conv.sr else "comp"
+        state["chunk_seen"] = False
+        point("comp_begin")
         k.setdefault("chunk_duration", 0.02)
         return o_comp(self, *a, **k)
+
+    def w_chunk(self, idx):
+        if not state.get("chunk_seen") and state.get("comp_label"):
+            state["chunk_seen"] = True
+            point("cchunk")
+        return o_chunk(self, idx)
+
+    def w_rename(self, target):
+        if str(self).startswith(str(world.root)) and str(target).endswith(".cbin") and state.get("comp_label"):
+            point(state["comp_label"])
+            state["comp_label"] = None
+        return o_rename(self, target)
 
     def w_unlink(self, *a, **k):
         s = str(self)
@@ -226,12 +246,16 @@ def instrumented(world, conv, steps, fail_at):
     spikeglx.Reader.close = w_close
     spikeglx.Reader.compress_file = w_comp
     pathlib.Path.unlink = w_unlink
+    pathlib.Path.rename = w_rename
+    mtscomp.Writer._compress_chunk = w_chunk
     try:
         yield
     finally:
         spikeglx.Reader.close = o_close
         spikeglx.Reader.compress_file = o_comp
         pathlib.Path.unlink = o_unlink
+        pathlib.Path.rename = o_rename
+        mtscomp.Writer._compress_chunk = o_chunk
         for name in wrapped_names:          # back to the class methods (the object may be used for another run)
             try:
                 delattr(conv, name)
@@ -279,6 +303,18 @@ def one_process(world, o, fail_at, steps, conv=None):
     return status, conv
 
 
+OBSERVED = set()
+
+
+def sr_closed(conv):
+    raw = getattr(conv.sr, "_raw", None)
+    mm = getattr(raw, "_mmap", None)
+    if mm is not None:
+        return bool(mm.closed)
+    cd = getattr(raw, "cdata", None)          # mtscomp reader
+    return bool(getattr(cd, "closed", False))
+
+
 def vr(conv):
     return bool(getattr(conv, "_verif_state", {}).get("verified", False))
 
@@ -321,6 +357,13 @@ def history(world, runs):
                 break                    # the original is gone: no further converter can be constructed / the object is dead
             if reuse and conv is None:
                 break
+            if reuse and sr_closed(conv):
+                # the interrupted run had already closed its reader (compress_NP21 / delete_NP24 close it before unlinking):
+                # calling process() again on this object would read a closed memory map, which crashes the interpreter.
+                # Outside the listed properties (a retry by a fresh object works): recorded as an observation, not executed.
+                OBSERVED.add(f"{world.kind}: process() on the same object after an interruption that left its reader closed "
+                             f"(first run {', '.join(k for k in OPT_KEYS if runs[0][0][k])} interrupted at step {runs[0][1]}) would read a closed memmap")
+                break
             if not reuse and conv is not None:
                 close_all(conv)
             st, conv = one_process(world, o, fa, steps, conv=conv if reuse else None)
@@ -361,14 +404,14 @@ def plan(ctx):
             out.append((kind, form, [(o, "ALL")]))
         # two-run histories: first run complete or interrupted somewhere, second run any options
         firsts = [(o, None) for o in (opts if not ctx.quick else rnd.sample(opts, 6))]
-        firsts += [(o, fa) for o in rnd.sample(opts, 4 if ctx.quick else 12) for fa in rnd.sample(range(0, 14), 3 if ctx.quick else 6)]
+        firsts += [(o, fa) for o in rnd.sample(opts, 4 if ctx.quick else 12) for fa in rnd.sample(range(0, 20), 3 if ctx.quick else 6)]
         for f in firsts:
             for o2 in (opts if not ctx.quick else rnd.sample(opts, 5)):
                 out.append((kind, form, [f, (o2, None)]))
         # the same converter object used again: process(overwrite=True) after a complete or an interrupted first process()
         key_opts = [o for o in opts if o["chk"] and o["del"]]           # the vectors under which the original can disappear
         for o in key_opts + rnd.sample(opts, 2 if ctx.quick else 12):
-            for fa in [None, 8, 10, 12] + rnd.sample(range(0, 14), 1 if ctx.quick else 5):
+            for fa in [None, 8, 10, 11, 13, 16] + rnd.sample(range(0, 20), 1 if ctx.quick else 5):
                 out.append((kind, form, [(o, fa), (dict(o, ow=True), None, True)]))
                 if not ctx.quick:
                     out.append((kind, form, [(o, fa), (dict(o, ow=False), None, True)]))
@@ -454,12 +497,24 @@ def run(ctx):
     zero = [a for a in tlc.coverage_zero_actions(r.out) if a != "UnlinkStaleRaises"]
     if zero:
         raise tlc.TLCError(f"vacuity: actions never taken {zero}")
+    # composition (spec/sys/System.tla): compress_file's own protocol (C02) refines the converter's atomic CompressFile step
+    scfg = "mc/System_quick.cfg" if ctx.quick else "mc/System_thorough.cfg"
+    r = tlc.run("mc/MC_System.tla", scfg, workers=8, timeout=3000, heap="8g")
+    ctx.tlc(r, scfg)
+    if not r.ok:
+        raise tlc.TLCError(f"System does not refine NP2Convert / violates {r.invariant_violated}:\n{r.out[-2500:]}")
+    if not ctx.quick:
+        r = tlc.run("mc/MC_System.tla", "mc/System_whatif.cfg", workers=4, timeout=600)
+        if r.ok or r.invariant_violated != "FinalNeverPartial":
+            raise tlc.TLCError("vacuity: the what-if variant (chunks written under the final name) was not rejected by the System model")
     items = plan(ctx)
     traces = execute(ctx, items)
     for t in traces:
         ctx.count(1, key=(t["kind"], t["form"], json.dumps(t["runs"], sort_keys=True)))
     verdicts = validate(ctx, traces, "convert")
     report(ctx, traces, verdicts)
+    for o in sorted(OBSERVED)[:5]:
+        ctx.observe(o)
     ctx.cov["histories"] = len(traces)
     ctx.cov["interruptions_injected"] = sum(1 for t in traces for r in t["runs"] if r[1] is not None)
     ctx.cov["same_object_histories"] = sum(1 for t in traces if any(len(r) > 2 and r[2] for r in t["runs"]))
